@@ -231,6 +231,7 @@ def judge_segmentation(sc, lines_in, impl_out, require_complete=True):
 
 class C02(PropBase):
     id = 'C02'
+    address_change = 0.15
     rx_only_gaps = 0.1
     partial_passes = 0.25
     rx_only_passes = 0.4
